@@ -111,6 +111,9 @@ func race(file string, timeoutS int) (win raceResult, tried []string) {
 // Solve discharges one obligation. If no solver proves it, the query is retried with the quantified
 // background dropped: a model of that weaker query is a candidate counterexample (to be replayed).
 func Solve(o *Obligation, workDir string, timeoutS int, confirm bool) *SolveResult {
+	if o.Family == "VACUITY" {
+		return solveVacuity(o, workDir)
+	}
 	q := o.ctx.Query(o)
 	fname := filepath.Join(workDir, sanitizeFile(o.Name)+".smt2")
 	if err := os.WriteFile(fname, []byte(q), 0o644); err != nil {
@@ -336,4 +339,39 @@ func modelInt(s string) (string, bool) {
 		}
 	}
 	return s, s != ""
+}
+
+// solveVacuity: the assumptions are contradictory iff the query is unsat. Anything else (sat, unknown,
+// timeout) counts as "not refuted"; short limits suffice because a contradiction among a handful of
+// assumptions is found at once.
+func solveVacuity(o *Obligation, workDir string) *SolveResult {
+	q := o.ctx.Query(o)
+	res := &SolveResult{Status: "unknown"}
+	t0 := time.Now()
+	rname := filepath.Join(workDir, sanitizeFile(o.Name)+".reduced.smt2")
+	if os.WriteFile(rname, []byte(dropQuantified(q)), 0o644) == nil {
+		w, tried := race(rname, 3)
+		res.Tried = append(res.Tried, tried...)
+		os.Remove(rname)
+		if w.status == "unsat" || w.status == "sat" {
+			// unsat: contradictory even without the quantified background. sat: the quantifier-free part of the
+			// assumptions (contract clauses, typing facts, path conditions) is consistent - that is the part
+			// where contradictions have actually occurred; the quantified background is checked only if this
+			// query is undecided
+			res.Status, res.Solver = w.status, w.solver+"(no-quantifiers)"
+			res.Seconds = time.Since(t0).Seconds()
+			return res
+		}
+	}
+	fname := filepath.Join(workDir, sanitizeFile(o.Name)+".smt2")
+	if os.WriteFile(fname, []byte(q), 0o644) == nil {
+		w, tried := race(fname, 4)
+		res.Tried = append(res.Tried, tried...)
+		res.Status, res.Solver = w.status, w.solver
+		if !keepQueries {
+			os.Remove(fname)
+		}
+	}
+	res.Seconds = time.Since(t0).Seconds()
+	return res
 }
